@@ -6,7 +6,7 @@ Import ListNotations.
 Local Open Scope N_scope.
 
 Ltac mprims1 :=
-  cbv beta iota zeta delta [get_x set_x get_is set_is flag_unspec flag_lower val key_arg read_into get_mut
+  cbv beta iota zeta delta [get_x set_x get_is set_is get_exp set_exp tick_tree with_exp x_exp flag_unspec flag_lower val key_arg read_into get_mut
                             set_value read_section
                             bind ret trap fault ensure emit tick get_hs set_hs mem_len get_energy mslice mstore
                             vslice uadd lift_trap write_to_mem ensure_fits mborrow_from
@@ -60,7 +60,7 @@ Notation S1 := (st H1).
 
 Ltac dst s :=
   destruct s as [e0 m0 ev0 h0];
-  destruct h0 as [? ? ? ? ? ? ? ? ? ? ? ? ? ? ? ? ? x0]; destruct x0 as [? ? is0 ? ? ? ? ? ?]; destruct is0.
+  destruct h0 as [? ? ? ? ? ? ? ? ? ? ? ? ? ? ? ? ? x0]; destruct x0 as [? ? is0 ? ? ? ? ? ? ?]; destruct is0.
 
 Ltac unfold_v1 :=
   unfold invoke, parse_call_args, upgrade, write_return_value, get_parameter_size1, get_parameter_section1,
